@@ -154,6 +154,28 @@ CHECKS = {
             'One geometry and frequency (the seed rotates materials only); a hang means exceeding 120 s wall and 20 s CPU alone in a fresh process; silent '
             'corruption that neither glibc checks nor ASan detect is not decided; dynamic-liquid-top stacks and the known process-killing / hanging inputs are '
             'crossed with a reduced menu because the known crash masks everything else on them.', 'DESIGN.md section 2, C06 and section 8'),
+    'C16': ('model_checking', 'E1-lattice + E2-histories',
+            'bounded-exhaustive enumeration of real world builds (shipped + generated family) and explicit-state BFS over derivation chains '
+            '(build_from_world / scale_from_world / build_world) on real objects under a deterministic step budget',
+            'Every shipped non-BurnMan world and every member of a generated 1-6-layer family (type pattern x radius partition x geometry style x mass mode x slices; '
+            '9.6 k builds quick, 130 k thorough) is built by the real builder and checked for contiguity, volume / mass sums, strictly increasing radii, surface '
+            'gravity and monotone enclosed mass against a reference model of the configuration. All chains over an 11-operation alphabet from 3 roots are executed to '
+            'depth 3 (thorough: canonical-state BFS to depth 5), each operation under a 3e5-line step budget so that non-termination is an outcome; after every '
+            'operation inputs-unchanged, distinct name, exact scaling and all build invariants are asserted.',
+            'Grid of configurations and alphabet only; termination = step budget over traced TidalPy Python lines (compiled / third-party loops are not counted); '
+            'the mass-sum clause applies only when no explicit world mass is given; chain states merge on name + canonical config + all geometry numbers.',
+            'DESIGN.md section 2, C16 and section 8'),
+    'C17': ('model_checking', 'E1-lattice + E2-histories',
+            'ulp-level differential enumeration of the conversion twins (numba / interpreted / Cython) against an mpmath closed form; explicit-state BFS '
+            'over orbit-update histories on real PhysicsOrbit objects against a Kepler reference model',
+            'All 69 values (30 decades plus range edges) x scalar/array x 4 conversion pairs x 9 mass pairs are run through the numba, interpreted and Cython '
+            'implementations and compared for round trip, closed form (mpmath, 60 digits) and cross-implementation agreement in ulps. All histories over a '
+            '37-operation alphabet (P/n/a x 3 values x 4 access paths, plus e) are executed on freshly built real orbit objects for star and planet hosts x 2 '
+            'target masses (all histories to depth 2 quick / 3 thorough, then canonical-state BFS; fixed point at 29 states per system); Kepler III, P-n '
+            'consistency, last-written value and agreement of every accessor are asserted in every state at 1e-12.',
+            'Value grid only; admission gate [1e-300, 1e300]; calibrated ulp budgets (32 / 512 for the cube-root pair: the interpreted **(1/3) alone is 18 ulp '
+            'from the exact value); AU and Myr constants are compared across implementations, not against an external standard; the AU mismatch is a known finding.',
+            'DESIGN.md section 2, C17 and section 8'),
 }
 
 NOT_APPLICABLE = {}
